@@ -15,8 +15,6 @@ Import ListNotations.
    and mtime (whatever the size of the file it replaced); files that did not differ are untouched. *)
 Theorem C01_postcondition : forall refuse ds c now U keep src dst,
   src_wf src -> c_dry_run c = false -> dst [] = None ->
-  (forall e, In e src -> se_is_dir e = true -> forall cc s t, dst (se_path e) <> Some (File cc s t)) ->
-  (forall e, In e src -> se_is_dir e = false -> dst (se_path e) <> Some Dir) ->
   let r := run refuse ds c now U keep src dst in
   r_refused r = false -> r_errors r = [] ->
   forall e, In e src ->
